@@ -98,6 +98,18 @@ def answers(conv, strings, pairs, full=True):
         # strict on the others (the probe list interleaves kinds of strings)
         modes = MODES if (full and n % 3 == 0) else MODES[:2]
         d = {}
+        if not full:
+            # lite: every primitive in default mode, strict mode for the two conversions
+            d["compress"] = [call(conv.compress, s), call(conv.compress, s, strict=True)]
+            d["expand"] = [call(conv.expand, s), call(conv.expand, s, strict=True)]
+            for name in ("compress_or_standardize", "expand_or_standardize", "standardize_prefix",
+                         "standardize_curie", "standardize_uri", "parse_curie", "expand_all",
+                         "get_record", "is_uri", "is_curie"):
+                d[name] = call(getattr(conv, name), s)
+            d["parse_uri"] = call(conv.parse_uri, s, return_none=True)
+            d["parse"] = call(conv.parse, s, strict=False)
+            out[s] = d
+            continue
         for name in (
             "compress", "expand", "compress_or_standardize", "expand_or_standardize",
             "standardize_prefix", "standardize_curie", "standardize_uri",
@@ -170,9 +182,28 @@ def diff(a, b, path="", limit=6):
     return out
 
 
-def probe_sets(curie_pool, uri_pool, id_pool, delimiters, max_ids=3):
+def probe_sets(curie_pool, uri_pool, id_pool, delimiters, max_ids=3, compact=False):
     """Probe strings and pairs from the *world's* pools (not from one converter)."""
     from .tokens import uri_probes
+
+    if compact:
+        # one CURIE per pool prefix, the bare prefix, and p / p+tail / p-minus-one per URI prefix
+        out = [""]
+        d = delimiters[0]
+        for n, p in enumerate(curie_pool):
+            out.append(p + d + id_pool[n % len(id_pool)])
+            out.append(p)
+        for n, u in enumerate(uri_pool):
+            out.append(u)
+            out.append(u + id_pool[n % len(id_pool)])
+            if u:
+                out.append(u[:-1])
+        for d2 in delimiters[1:]:
+            out.append(curie_pool[0] + d2 + "1")
+        out.append("no delimiter here")
+        strings = list(dict.fromkeys(out))
+        pairs = [(p, id_pool[n % len(id_pool)]) for n, p in enumerate(curie_pool)] + [("zz", "1")]
+        return strings, pairs
 
     strings = []
     seen = set()
